@@ -1,7 +1,7 @@
 ----------------------------- MODULE GuardTrace -----------------------------
 (* Linearizability of recorded constructor calls with respect to StoreGuard: *)
-(* events are call(t, kind) / ret(t, ok) / close(t); kind "c" is a           *)
-(* constructor call that can succeed, any other kind one that fails after    *)
+(* events are call(t, kind) / ret(t, ok) / close(t); kinds "c" / "cf" are     *)
+(* constructor calls that can succeed, any other kind one that fails after   *)
 (* the guard; the linearization point of each call is a silent step between  *)
 (* its call and its return.                                                  *)
 EXTENDS StoreGuard, Json, IOUtils, TLCExt, TLC
@@ -26,7 +26,7 @@ TCall == /\ l <= Len(Tr) /\ Ev.op = "call"
          /\ kind' = [kind EXCEPT ![Ev.t] = Ev.kind]
          /\ l' = l + 1 /\ UNCHANGED <<avars, res, tid>>
 TLin == \E t \in pend :
-         /\ IF kind[t] = "c"
+         /\ IF kind[t] \in {"c", "cf"}
             THEN res' = [res EXCEPT ![t] = Outcome(t, owner)] /\ TryCreate(t)
             ELSE res' = [res EXCEPT ![t] = FailOutcome(t, owner)] /\ TryFail(t)
          /\ pend' = pend \ {t}
